@@ -2,6 +2,7 @@ mod bridge;
 mod gen;
 mod orch;
 mod p_flow;
+mod p_hist;
 mod p_net;
 mod p_solve;
 mod rng;
@@ -12,6 +13,7 @@ use serde_json::Map;
 fn case_fn_for(prop: &str) -> CaseFn {
     match prop {
         "C01" | "C02" | "C03" | "C04" | "C05" | "C06" | "C07" => p_solve::case,
+        "C09" | "C10" | "C13" => p_hist::case,
         "C14" => p_flow::case,
         "C17" => p_net::case,
         _ => panic!("unknown property {}", prop),
@@ -49,6 +51,11 @@ fn spec_for(prop: &str, tier: &str, seed: u64) -> RunSpec {
             s.rule = format!("{}every instance is run in the release and in the checked (overflow-checks, debug-assertions) build; non-trivial = every distinct instance (a full pipeline run)", gen_rule);
             s.variants = vec!["release".to_string(), "checked".to_string()];
             s.crash_is_violation = true;
+        }
+        "C09" | "C10" | "C13" => {
+            s.rule = "seeded random walks (30-200 operations) over the public modification API of Schedule, starting from the empty schedule, one-vehicle-per-trip and the min-cost-flow solution; after every Ok operation the full observable state is snapshotted and judged; non-trivial = distinct (instance, operation kind, argument shape) triples that returned Ok and changed the state; monitor_counters lists every covered shape cell".to_string();
+            s.cases = if thorough { 20000 } else { 400 };
+            s.min_nontrivial = 50;
         }
         "C14" => {
             s.rule = "instances with decoupled depot totals from the seeded generator; MinCostFlowSolver::solve() is observed through public getters and compared per vehicle type with an independent min-cost circulation (successive shortest paths, lexicographic (vehicles, cost)) over ALL connectable pairs; non-trivial = distinct instances whose start solution chains >= 2 activities in some tour".to_string();
